@@ -270,3 +270,64 @@ MUTANTS += [
             Ipv6Addr::from(name_data.sin6_addr.s6_addr),
             u16::from_le(name_data.sin6_port),""")]),
 ]
+
+WST = WS + "storage.rs"
+MUTANTS += [
+ dict(id="C08-ownership-connection-id-only", props=["C08"], expect={"C08": r"ownership#announce#identity_pair"},
+      edits=[(WST, "            if request_sender_meta.connection_id != previous_peer.connection_id\n                || request_sender_meta.out_message_consumer_id.0 != previous_peer.consumer_id.0\n            {",
+              "            if request_sender_meta.connection_id != previous_peer.connection_id {")]),
+ dict(id="C08-close-without-owner-test", props=["C08"], expect={"C08": r"ownership#close#owner_checked"},
+      edits=[(WST, """        match self.peers.get(&peer_id) {
+            Some(peer)
+                if peer.connection_id == connection_id
+                    && peer.consumer_id.0 == out_message_consumer_id.0 => {}
+            _ => return,
+        }
+""", """        let _ = (out_message_consumer_id, connection_id);
+""")]),
+ dict(id="C08-close-owner-test-consumer-only", props=["C08"], expect={"C08": r"ownership#close#owner_checked"},
+      edits=[(WST, "                if peer.connection_id == connection_id\n                    && peer.consumer_id.0 == out_message_consumer_id.0 => {}", "                if peer.consumer_id.0 == out_message_consumer_id.0 => {}")]),
+ dict(id="C08-occupied-leeching-increments", props=["C08"], expect={"C08": r"effect#insert_or_update#Occupied/Leeching/True"},
+      edits=[(WST, """                    if peer.seeder {
+                        self.num_seeders -= 1;
+                    }
+
+                    peer.seeder = false;""", """                    if peer.seeder {
+                        self.num_seeders += 1;
+                    }
+
+                    peer.seeder = false;""")]),
+ dict(id="C08-occupied-seeding-forgets-flag", props=["C08"], expect={"C08": r"effect#insert_or_update#Occupied/Seeding"},
+      edits=[(WST, "                    peer.seeder = true;\n                    peer.valid_until = valid_until;", "                    peer.valid_until = valid_until;")]),
+ dict(id="C08-vacant-seeding-not-counted", props=["C08"], expect={"C08": r"effect#insert_or_update#Vacant/Seeding"},
+      edits=[(WST, """                PeerStatus::Seeding => {
+                    self.num_seeders += 1;
+
+                    let peer = Peer {""", """                PeerStatus::Seeding => {
+                    let peer = Peer {""")]),
+ dict(id="C08-close-forgets-seeder-count", props=["C08"], expect={"C08": r"effect#connection_closed"},
+      edits=[(WST, """        if let Some(peer) = self.peers.swap_remove(&peer_id) {
+            if peer.seeder {
+                self.num_seeders -= 1;
+            }
+""", """        if let Some(peer) = self.peers.swap_remove(&peer_id) {
+            let _ = peer.seeder;
+""")]),
+ dict(id="C08-status-left-none-is-seeder", props=["C08"], expect={"C08": r"table#PeerStatus"},
+      edits=[(WST, "        } else if let Some(0) = opt_bytes_left {", "        } else if let Some(0) | None = opt_bytes_left {")]),
+ dict(id="C08-scrape-reports-unknown-torrents", props=["C08"], expect={"C08": r"reply#scrape_entries"},
+      edits=[(WST, """                out_message.files.insert(info_hash, stats);
+            }
+        }""", """                out_message.files.insert(info_hash, stats);
+            } else {
+                out_message.files.insert(info_hash, ScrapeStatistics { complete: 0, downloaded: 0, incomplete: 0 });
+            }
+        }""")]),
+ dict(id="C08-foreign-announce-gets-reply", props=["C08"], expect={"C08": r"ownership#announce#foreign_ignored"},
+      edits=[(WST, """                || request_sender_meta.out_message_consumer_id.0 != previous_peer.consumer_id.0
+            {
+                return;""", """                || request_sender_meta.out_message_consumer_id.0 != previous_peer.consumer_id.0
+            {
+                out_messages.push((request_sender_meta.into(), OutMessage::ErrorResponse(ErrorResponse { action: Some(ErrorResponseAction::Announce), info_hash: Some(request.info_hash), failure_reason: "peer id in use".into() })));
+                return;""")]),
+]
